@@ -1110,3 +1110,233 @@ func (p *Prog) callersOf(name string) []string {
 	}
 	return out
 }
+
+// ruleRebuild (E4.rebuild): a coefficient that came out of decompose() together with an exponent is
+// set to zero and rebuilt digit by digit (`X = X.mul64(10^k)` then `+ digit` in a loop: the digit
+// reversal of Exp2/Exp10). Its old exponent no longer describes it: (a) the paired exponent must be
+// assigned again before it is read on every path from the zeroing statement; (b) if it is reset to a
+// constant in front of the loop it tracks the rebuilt coefficient, so the loop must step it by k per
+// multiplication by 10^k.
+func ruleRebuild(c *Ctx) {
+	p := c.P
+	n := 0
+	for _, name := range p.sortedFuncNames() {
+		fd := p.Funcs[name]
+		if fd.Body == nil {
+			continue
+		}
+		pair := map[string]string{} // coefficient key -> exponent key
+		pairName := map[string]string{}
+		ast.Inspect(fd.Body, func(nd ast.Node) bool {
+			if as, ok := nd.(*ast.AssignStmt); ok && len(as.Lhs) == 2 && len(as.Rhs) == 1 {
+				if call, ok := as.Rhs[0].(*ast.CallExpr); ok && p.calleeName(call) == "Decimal.decompose" {
+					if a, b := p.exprKey(as.Lhs[0]), p.exprKey(as.Lhs[1]); a != "" && b != "" {
+						pair[a] = b
+						pairName[a] = p.exprStr(as.Lhs[1])
+					}
+				}
+			}
+			return true
+		})
+		if len(pair) == 0 {
+			continue
+		}
+		k := 0
+		walkStack(fd.Body, func(nd ast.Node, stack []ast.Node) {
+			as, ok := nd.(*ast.AssignStmt)
+			if !ok || as.Tok != token.ASSIGN || len(as.Lhs) != 1 || len(as.Rhs) != 1 {
+				return
+			}
+			cl, ok := ast.Unparen(as.Rhs[0]).(*ast.CompositeLit)
+			if !ok || len(cl.Elts) != 0 {
+				return
+			}
+			xk := p.exprKey(as.Lhs[0])
+			ek, ok := pair[xk]
+			if !ok {
+				return
+			}
+			full := append(append([]ast.Node{}, stack...), nd)
+			list, idx := enclosingBlock(full)
+			if list == nil {
+				return
+			}
+			// the rebuilding loop: one of the next statements, multiplying X by a power of ten
+			var loop *ast.ForStmt
+			log10 := 0
+			resetConst := false
+			for _, s := range list[idx+1:] {
+				if f, ok := s.(*ast.ForStmt); ok {
+					ast.Inspect(f.Body, func(m ast.Node) bool {
+						if a2, ok := m.(*ast.AssignStmt); ok && len(a2.Lhs) == 1 && len(a2.Rhs) == 1 && p.exprKey(a2.Lhs[0]) == xk {
+							if call, ok := a2.Rhs[0].(*ast.CallExpr); ok && len(call.Args) == 1 && strings.HasSuffix(p.calleeName(call), ".mul64") {
+								if sel, ok := call.Fun.(*ast.SelectorExpr); ok && p.exprKey(sel.X) == xk {
+									if kv, ok := constBig(p.constOf(call.Args[0])); ok {
+										for e := 1; e < 20; e++ {
+											if kv.Cmp(pow10(e)) == 0 {
+												log10 = e
+											}
+										}
+									}
+								}
+							}
+						}
+						return true
+					})
+					if log10 > 0 {
+						loop = f
+					}
+					break
+				}
+				if a2, ok := s.(*ast.AssignStmt); ok && a2.Tok == token.ASSIGN && len(a2.Lhs) == 1 && p.exprKey(a2.Lhs[0]) == ek && len(a2.Rhs) == 1 && p.constOf(a2.Rhs[0]) != nil {
+					resetConst = true
+					continue
+				}
+				if _, ok := s.(*ast.AssignStmt); !ok {
+					break
+				}
+			}
+			if loop == nil {
+				return
+			}
+			k++
+			n++
+			key := fmt.Sprintf("rebuild:%s#%d", name, k)
+			// (a) the exponent is assigned before it is read
+			stale := false
+			if !resetConst {
+				stale = p.staleRead(full, ek)
+			}
+			c.check(!stale, key+":stale", as, pairName[xk]+" is assigned again before it is read once its coefficient has been rebuilt",
+				fmt.Sprintf("%s: %s is set to zero and rebuilt digit by digit, but on some path %s, which described the old coefficient, is read before it is assigned again", name, p.exprStr(as.Lhs[0]), pairName[xk]), funcProps(name)...)
+			// (b) a reset exponent is stepped inside the loop
+			if resetConst {
+				step := int64(0)
+				for _, s := range loop.Body.List {
+					if a, ok := p.asAdjustment(s); ok && a.key == ek {
+						step += a.delta
+					}
+				}
+				c.check(step == -int64(log10), key+":step", loop, fmt.Sprintf("%s moves by %d per multiplication by 10^%d", pairName[xk], -log10, log10),
+					fmt.Sprintf("%s: %s is reset in front of the loop that rebuilds %s digit by digit, so it must decrease by %d for every multiplication by 10^%d in the loop; it moves by %d", name, pairName[xk], p.exprStr(as.Lhs[0]), log10, log10, step), funcProps(name)...)
+			}
+		})
+	}
+	if n < 2 {
+		c.undecided("rebuild.count", nil, fmt.Sprintf("only %d rebuilt coefficients found", n))
+	}
+}
+
+// staleRead: walking outward from the statement at the end of stack, is the variable read before it is
+// assigned on some path? (the dual of remainderKilled: here an assignment settles a path, a read is the finding)
+func (p *Prog) staleRead(stack []ast.Node, key string) bool {
+	cur := stack[len(stack)-1]
+	for i := len(stack) - 2; i >= 0; i-- {
+		var list []ast.Stmt
+		switch par := stack[i].(type) {
+		case *ast.BlockStmt:
+			list = par.List
+		case *ast.CaseClause:
+			list = par.Body
+		case *ast.FuncDecl, *ast.FuncLit:
+			return false
+		}
+		if list != nil {
+			for j, s := range list {
+				if ast.Node(s) == cur {
+					for _, t := range list[j+1:] {
+						if as, ok := t.(*ast.AssignStmt); ok && !p.readsVar(as, key) {
+							for _, l := range as.Lhs {
+								if p.exprKey(l) == key {
+									return false // assigned before any read
+								}
+							}
+						}
+						if p.readsVar(t, key) {
+							return true
+						}
+						if _, isRet := t.(*ast.ReturnStmt); isRet {
+							return false
+						}
+					}
+				}
+			}
+		}
+		cur = stack[i]
+	}
+	return false
+}
+
+// ruleDropAfterScale (E7.dropafter): an operand may be dropped as "sticky only" (`X = T{}` under a test of
+// the remaining exponent gap) only once the other operand's coefficient has been scaled up as far as it
+// goes: the gap then measures the distance to the other operand's last digit. In the statement list that
+// holds the guarded drop, every scale-up (`Y = Y.mul64(10^k)`) therefore comes before the drop and none
+// after it.
+func ruleDropAfterScale(c *Ctx) {
+	p := c.P
+	n := 0
+	isScaleUp := func(s ast.Node) bool {
+		found := false
+		ast.Inspect(s, func(m ast.Node) bool {
+			if a, ok := m.(*ast.AssignStmt); ok && len(a.Lhs) == 1 && len(a.Rhs) == 1 {
+				if call, ok := a.Rhs[0].(*ast.CallExpr); ok && len(call.Args) == 1 && strings.HasSuffix(p.calleeName(call), ".mul64") {
+					if sel, ok := call.Fun.(*ast.SelectorExpr); ok && p.exprKey(sel.X) != "" && p.exprKey(sel.X) == p.exprKey(a.Lhs[0]) {
+						found = true
+					}
+				}
+			}
+			return !found
+		})
+		return found
+	}
+	for _, name := range []string{"Decimal.add", "decomposed192.add", "decomposed192.sub"} {
+		fd := c.fn(name)
+		if fd == nil || fd.Body == nil {
+			continue
+		}
+		k := 0
+		walkStack(fd.Body, func(nd ast.Node, stack []ast.Node) {
+			as, ok := nd.(*ast.AssignStmt)
+			if !ok || as.Tok != token.ASSIGN || len(as.Lhs) != 1 || len(as.Rhs) != 1 {
+				return
+			}
+			cl, ok := ast.Unparen(as.Rhs[0]).(*ast.CompositeLit)
+			if !ok || len(cl.Elts) != 0 || limbsOf(p.typeOf(as.Lhs[0])) < 2 {
+				return
+			}
+			// the outermost if around the drop that compares an integer with a constant: the gap guard
+			var guard *ast.IfStmt
+			gi := -1
+			for i := len(stack) - 1; i >= 0 && guard == nil; i-- {
+				if ifs, ok := stack[i].(*ast.IfStmt); ok {
+					if _, op, _, ok := p.normCmp(ifs.Cond); ok && (op == token.GTR || op == token.LEQ) {
+						guard, gi = ifs, i
+					}
+				}
+			}
+			if guard == nil {
+				return
+			}
+			list, idx := enclosingBlock(stack[:gi+1])
+			if list == nil {
+				return
+			}
+			k++
+			n++
+			before, after := 0, 0
+			for j, s := range list {
+				if j < idx && isScaleUp(s) {
+					before++
+				}
+				if j > idx && isScaleUp(s) {
+					after++
+				}
+			}
+			c.check(before > 0 && after == 0, fmt.Sprintf("dropafter:%s#%d", name, k), guard, "the operand is dropped only after the other coefficient has been scaled up",
+				fmt.Sprintf("%s: %s is dropped as sticky-only under `%s`, but %d scale-up step(s) of a coefficient come after that test and %d before it in the same branch; the gap only bounds the dropped operand against the other's last digit once that coefficient has been scaled up as far as it goes", name, p.exprStr(as.Lhs[0]), p.exprStr(guard.Cond), after, before), funcProps(name)...)
+		})
+	}
+	if n < 4 {
+		c.undecided("dropafter.count", nil, fmt.Sprintf("only %d guarded drops found", n))
+	}
+}
